@@ -113,21 +113,20 @@ void mapT(Case& c, bool dupRange, unsigned keyRange, unsigned nops) {
         std::pair<typename F::iterator, bool> r;
         switch (rng.below(3)) {
         case 0:
-          c.op("insert", k, v);
+          c.op("insert", k, v, "insert");
           r = f.insert(Pair(K(k), V(v)));
           break;
         case 1: {
           Pair p{K(k), V(v)};
-          c.op("insert-copy", k, v);
+          c.op("insert-copy", k, v, "insert");
           r = f.insert(p);
           break;
         }
         default:
-          c.op("emplace", k, v);
+          c.op("emplace", k, v, "insert");
           r = f.emplace(K(k), V(v));
           break;
         }
-        c.lastOp = "insert";
         c.eq("result-inserted", r.second, !has);
         if (!has)
           m.emplace(k, v);
@@ -139,20 +138,18 @@ void mapT(Case& c, bool dupRange, unsigned keyRange, unsigned nops) {
       } else if (x < 34) {
         int v = c.nextVal();
         if (rng.below(2)) {
-          c.op("subscript-assign", k, v);
+          c.op("subscript-assign", k, v, "subscript");
           K key(k);
           f[key] = V(v);
         } else {
-          c.op("subscript-rvalue-key-assign", k, v);
+          c.op("subscript-rvalue-key-assign", k, v, "subscript");
           f[K(k)] = V(v);
         }
-        c.lastOp = "subscript";
         m[k]     = v;
       } else if (x < 40) {
-        c.op("subscript-read", k);
+        c.op("subscript-read", k, NOARG, "subscript");
         K key(k);
         int got = val(f[key]);
-        c.lastOp = "subscript";
         // a missing key is inserted with a value-initialised mapped value
         if (has)
           c.eq("result-value", got, m[k]);
@@ -223,10 +220,9 @@ void mapT(Case& c, bool dupRange, unsigned keyRange, unsigned nops) {
           if (!m.empty()) {
             size_t idx = rng.below(m.size());
             bool constv = rng.below(2);
-            c.op(constv ? "erase-const_iterator" : "erase-iterator", (long)idx);
+            c.op(constv ? "erase-const_iterator" : "erase-iterator", (long)idx, NOARG, "erase-iterator");
             typename F::iterator r =
                 constv ? f.erase(typename F::const_iterator(f.begin() + idx)) : f.erase(f.begin() + idx);
-            c.lastOp = "erase-iterator";
             c.eq("result-position", (long)std::distance(f.begin(), r), (long)idx);
             m.erase(std::next(m.begin(), idx));
             break;
@@ -294,12 +290,11 @@ void mapT(Case& c, bool dupRange, unsigned keyRange, unsigned nops) {
           np.reset(new F());
           fill(*np);
           bool viaStd = rng.below(2);
-          c.op(viaStd ? "std-swap" : "swap", (long)om.size());
+          c.op(viaStd ? "std-swap" : "swap", (long)om.size(), NOARG, "swap");
           if (viaStd)
             std::swap(*np, f);
           else
             np->swap(f);
-          c.lastOp = "swap";
           long lv  = live() < 0 ? -1 : (long)(m.size() + om.size()) * ((tk ? 1 : 0) + (tv ? 1 : 0));
           checkMap(c, f, om, lv);
           break;
@@ -310,7 +305,7 @@ void mapT(Case& c, bool dupRange, unsigned keyRange, unsigned nops) {
       }
       checkMap(c, *fp, m, live());
     }
-    c.lastOp = "destructor";
+    c.phase("destructor");
   }
   c.lifetimesOk((tk || tv) ? 0 : -1);
 }
